@@ -112,6 +112,27 @@ def best : P String := do
   if v.fails.isEmpty && !v.diffs.isEmpty && nearTie then return "skip ill_conditioned" else
   return v.render
 
+/-- `bup S nP nV points vecs | k arr` : extractBestUsefulPoints (not modelled; clauses of its documentation checked on the output) -/
+def bup : P String := do
+  let S ← P.nat; let nP ← P.nat; let nV ← P.nat; let pts ← vecsP nP S; let vs ← vecsP nV S; P.bar
+  let k ← P.nat; let arr ← vecsP nP S; P.eof
+  let M := maxAbsL vs
+  -- which hyperplane a point supports is decided by rounding when two different values are within 1e-9 of the maximum
+  let near := pts.any (fun p =>
+    let mx := vs.foldl (fun m x => maxQ m (dot p x)) (dot p (vs.getD 0 []))
+    decide (1 < (((vs.filter (fun x => decide (mx - tiny M < dot p x))).map (dot p)).eraseDups).length))
+  if near then return "skip ill_conditioned"
+  let idOf := fun (p : Vec) => findBest (dot p) vs
+  let valOf := fun (p : Vec) => dot p (vs.getD (idOf p) [])
+  let kept := arr.take k
+  let v : Verdict := { tag := if nP < 2 then "bup trivial" else "bup" }
+  let v := v.failIf (!(isPermB pts arr) || k > nP) "extractBestUsefulPoints not_a_permutation"
+  let ids := kept.map idOf
+  let v := v.failIf (ids.eraseDups.length != ids.length) "extractBestUsefulPoints two_points_for_one_hyperplane"
+  let v := v.failIf (pts.any (fun p => !(ids.contains (idOf p)))) "extractBestUsefulPoints supported_hyperplane_lost"
+  let v := v.failIf (kept.any (fun q => pts.any (fun p => idOf p == idOf q && decide (valOf q + tiny M < valOf p)))) "extractBestUsefulPoints not_the_best_point_of_its_hyperplane"
+  return v.render
+
 /-- `ed S n vecs | e arr certs` -/
 def ed : P String := do
   let S ← P.nat; let n ← P.nat; let xs ← vecsP n S; P.bar
@@ -376,6 +397,7 @@ def handle (toks : List String) : String :=
     | "dom" :: rest => P.run dom rest
     | "ed" :: rest => P.run ed rest
     | "best" :: rest => P.run best rest
+    | "bup" :: rest => P.run bup rest
     | "edi" :: rest => P.run edi rest
     | "prune" :: rest => P.run prune rest
     | "lpi" :: rest => P.run lpi rest
